@@ -195,7 +195,7 @@ def check(props, pid, tier, seed, no_bounded=False):
             missing = [g for g in r['ghost_declared'] if g not in r['ghost_sites']]
             if missing:
                 undecided.append(dict(fid=r['fid'], reason='ghost-site-vanished', detail=str(missing)))
-            if len(obs) == 0:
+            if len(obs) == 0 and r['status'] == 'ok':
                 crashes.append(f"{r['fid']}: zero obligations generated")
             if led and led['fn_hash'] == r['fn_hash'] and len(obs) < led['count']:
                 crashes.append(f"{r['fid']}: fewer obligations ({len(obs)}) than the ledger ({led['count']}) for an unchanged function")
